@@ -236,7 +236,15 @@ class Check:
 
     # ----- Lean ------------------------------------------------------------
     def prepare_lean(self, extra_targets=()):
-        """Regenerate tables, build proofs + driver, audit axioms."""
+        """Regenerate tables, build proofs + driver, audit axioms (one run at a time: the generated files live in one place)."""
+        with open(os.path.join(LEAN_DIR, '.prepare.lock'), 'w') as lock:
+            fcntl.flock(lock, fcntl.LOCK_EX)
+            try:
+                self._prepare_lean(extra_targets)
+            finally:
+                fcntl.flock(lock, fcntl.LOCK_UN)
+
+    def _prepare_lean(self, extra_targets=()):
         from . import extract_tables
         try:
             extract_tables.regenerate()
